@@ -253,6 +253,9 @@ impl MainEvent {
         let mut trigger_timestamp = None;
         // Need to group chunks by board and chip.
         let mut pwb_chunks_map: HashMap<_, Vec<_>> = HashMap::new();
+        // A wire bank does not always fill its slot in `wire_signals` (e.g. a
+        // suppressed channel), so duplicates are tracked by name.
+        let mut wire_bank_names: Vec<Adc32BankName> = Vec::new();
 
         for (bank_name, data_slice) in banks {
             match MainEventBankName::try_from(bank_name)? {
@@ -273,6 +276,12 @@ impl MainEvent {
                             found: (board_id, channel_id),
                         });
                     }
+                    if wire_bank_names.contains(&bank_name) {
+                        return Err(TryMainEventFromDataBanksError::DuplicateWireBank {
+                            bank_name,
+                        });
+                    }
+                    wire_bank_names.push(bank_name);
                     let waveform = packet.waveform();
                     if waveform.is_empty() {
                         continue;
